@@ -2168,6 +2168,18 @@ def _contains(token: TokenT, left: object, right: object) -> bool:
     if isinstance(left, str):
         return str(right) in left
     if isinstance(left, Collection):
+        # An undefined right-hand side is nil, whatever the undefined policy.
+        if hasattr(right, "__liquid__"):
+            right = right.__liquid__()
+
+        if isinstance(left, range):
+            # Constant time, however long the range is.
+            return not isinstance(right, bool) and right in left
+
+        if isinstance(left, Sequence):
+            # Membership by Liquid equality. `true` is not `1`.
+            return any(_eq(item, right) for item in left)
+
         try:
             return right in left
         except TypeError:
